@@ -597,8 +597,6 @@ def witnessLines : List String :=
     encCase wStaleRoutes true wStaleErrs wReq,
     encCase wStaleUriRoutes false [] wReq,
     encCase (wOrderRoutes wSetA) false [] wReq,
-    encCase (wOrderRoutes wSetB) false [] wReq,
-    -- AdaptProps.site_error_reaches_other_sites_handle_errors
-    "ms 0 1 2,1,1,f,404,0,0,1,r,299,1,0,1,r,211" ]
+    encCase (wOrderRoutes wSetB) false [] wReq ]
 
 end CaddyModel.C05
